@@ -123,6 +123,8 @@ def h_metarize(E, N, C, which, excl, prop):
         kind, tab = run_steps(ch, which, ['_calculate_sligrolay_base_height', '_add_sligrolay_information'])
     else:
         T, ids, prms, ch = build(E, N, C, which, excl, K=3, sym=('q',))
+        if prop == 'C01':
+            prms['MSA'] = E.real('msa')       # the table must not depend on the MSA
         with WarningLog():
             kind, tab = outcome(ch.metarize, which)
         if kind == 'ok':
